@@ -15,7 +15,7 @@ LEVEL_NOTE = "convergence rests on the parser (B); the line-shape contract of th
 TECHNIQUE = "frame inference (F) + regular-language obligations (R) on the real emitter/lexer tables; bounded product of lenient rewrites over model documents (B)"
 EXPLANATION = "C03: F emitter frame, R alias table and bare classes, B every combination of lenient rewrites canonicalises to the canonical rendering's canonical text, which an independent strict-profile recogniser accepts."
 ASSUMPTIONS = ["as C01; the strict-profile recogniser (props.docs_b.strict_profile_problems) is written from the property text"]
-TRUSTED_BASE = ["verif.reglang", "verif.frames", "verif.bounded.model"]
+TRUSTED_BASE = ["verif.reglang", "verif.frames", "verif.bounded.model", "z3"]
 
 EMIT = ["octave_mcp.core.emitter:emit"]
 UNICODE_OF = {"->": "→", "<->": "⇌", "+": "⊕", "~": "⧺", "vs": "⇌", "|": "∨", "&": "∧", "#": "§"}
